@@ -936,7 +936,8 @@ def gen_case(rng, kind=None, jit=False, index=0):
     bc, sides = gen_bc(rng, gs, axes, dyadic)
     probes = gen_bc_probes(rng, axes, sides, dyadic)
     # cell-coordinate points for make_single_interpolator(cell_coords=True)
-    cell_points = [m["xs"] for m in meta]
+    # (cell coordinates as grid.transform(.., "cell") defines them: cell i spans [i, i+1]; `xs` counts from the centre of cell 0)
+    cell_points = [[x + 0.5 for x in m["xs"]] for m in meta]
     # inserts: interior points mostly, some outside (error class), amounts per component
     ncomp = grid_dim(gs) ** fs["rank"]
     inserts = []
@@ -1012,7 +1013,7 @@ def lattice_cases(rng, thorough):
                              "kinds": [axis_kind(a[0], x) for a, x in zip(axes, xs)]})
             bc, sides = gen_bc(rng, gs, axes, True)
             spec = {"grid": gs, "field": fs, "points": pts, "fill": -1.0, "bc": bc, "probes": [],
-                    "cell_points": [m["xs"] for m in meta], "inserts": [(p, [1.5]) for p in pts],
+                    "cell_points": [[x + 0.5 for x in m["xs"]] for m in meta], "inserts": [(p, [1.5]) for p in pts],
                     "ops": ["axis", "interp", "interp_fill", "single_cc", "interp_bc", "insert", "insert_comp",
                             "insert_comp_ghost"]}
             out.append((spec, axes, meta, sides))
@@ -1264,6 +1265,15 @@ def evaluate(ctx, ev, spec, axes, meta, sides, res):
         for k in range(len(cps)):
             ctx.count(count_key(spec, "single_cc", point=cps[k]),
                       nontrivial=nontrivial_field and meta[k]["where"] == "inside", leg=f"single_cc/{mode}")
+            # literal clause: a point given in CELL coordinates is the same point as its grid coordinates
+            # lo + c*dx, so the interpolant must be the same (cell centres i + 1/2 return the cell's value)
+            if meta[k]["where"] == "inside" and not isinstance(real_all[k], str):
+                ctx.monitor_evals += 1
+                ref = ref_interp(axes, comps, [a[2] + c * a[3] for c, a in zip(cps[k], axes)])
+                if ref is not None and any(far(r - e, 1e-9 * scale) for r, e in zip(real_all[k], ref)):
+                    ctx.monitor_fail("single_cc", small_case(spec, "single_cc", cell_point=cps[k], fill=spec["fill"]),
+                                     real_all[k], ref, "make_single_interpolator(cell_coords=True) is not the interpolant at "
+                                     "the point lo + c*dx", key={"op": "single_cc", "what": "cell coordinates"})
         ev.ask("c16.interp", req_interp(axes, shape, comps, cps, cc=True, fill=spec["fill"]), cb)
 
     # ---------------- interpolate with bc (ghost-cell mode) ---------------------------------
@@ -2134,7 +2144,7 @@ def replay_case(col, c, workdir):
         pts, meta = [], []
     fill = c.get("fill")
     spec = {"grid": gs, "field": fs, "points": pts, "fill": 0.0 if fill is None else fill, "bc": bc, "probes": probes,
-            "cell_points": [m["xs"] for m in meta], "inserts": [(p, c["amount"])] if "amount" in c else [],
+            "cell_points": [[x + 0.5 for x in m["xs"]] for m in meta], "inserts": [(p, c["amount"])] if "amount" in c else [],
             "jit": jit}
     if op in ("interp", "interp_fill", "insert", "insert_comp"):
         spec["ops"] = [op]
@@ -2149,9 +2159,10 @@ def replay_case(col, c, workdir):
         if "cell_point" not in c:
             raise CannotReplay("no cell coordinates recorded")
         cp = c["cell_point"]
-        pt = [a[2] + (x + 0.5) * a[3] for x, a in zip(cp, axes)]
+        pt = [a[2] + x * a[3] for x, a in zip(cp, axes)]
         spec["ops"], spec["points"], spec["cell_points"] = ["single_cc"], [pt], [cp]
-        meta = [{"cls": "replay", "xs": cp, "where": classify(axes, pt), "kinds": [axis_kind(a[0], x) for a, x in zip(axes, cp)]}]
+        meta = [{"cls": "replay", "xs": [x - 0.5 for x in cp], "where": classify(axes, pt),
+                 "kinds": [axis_kind(a[0], x - 0.5) for a, x in zip(axes, cp)]}]
     elif op in ("interp_bc", "interp_bc_fill"):
         if bc is None or not (pts or probes):
             raise CannotReplay("no boundary condition / point recorded")
